@@ -72,6 +72,9 @@ HARNESSES = {
     "files3x2":  dict(pipe="det", mode="product", a=[1, 2, 3], b=[10, 20], steps=1, seed=None, hooks=False, outputs=True),
     # two swept arguments with the same short name ('a' of two models) around a uniquely named one
     "collide":   dict(pipe="collide", mode="product", a=[1, 2], b=[10, 20], c=[5, 6], steps=1, seed=None, hooks=False),
+    # custom mode with a two-column (vector) parameter declared BEFORE a scalar one
+    "customv":   dict(pipe="det", mode="custom", rows=[[1, 2, 10], [3, 4, 20], [5, 6, 30]], vec=True, steps=1, seed=None,
+                      hooks=False),
     "collideS":  dict(pipe="collide", mode="sequential", a=[1, 2], b=[10, 20], c=[5, 6], steps=1, seed=None, hooks=False),
 }
 
@@ -110,7 +113,7 @@ def build(h, with_dask, tmp):
     s = int(os.environ.get("VERIF_SEED", "0") or 0) % 7
     det = mk.detector("ccd", 2, 3)
     if h["pipe"] == "det":
-        groups = {"photon_collection": [("vp.probes.encode", "enc", {"a": 0.0, "b": 0.0})]}
+        groups = {"photon_collection": [("vp.probes.encode", "enc", {"a": 0.0, "b": 0.0, "v": [0.0, 0.0]})]}
         ka, kb = "pipeline.photon_collection.enc.arguments.a", "pipeline.photon_collection.enc.arguments.b"
     elif h["pipe"] == "stateful":
         groups = {"photon_collection": [("vp.probes.encode", "enc", {"a": 0.0, "b": 0.0})],
@@ -142,6 +145,10 @@ def build(h, with_dask, tmp):
                 f.write(" ".join(str(x + s) for x in row) + "\n")
         params = [ParameterValues(key=ka, values="_"), ParameterValues(key=kb, values="_")]
         kw = dict(from_file=fn, column_range=(0, 2))
+        if h.get("vec"):
+            params = [ParameterValues(key="pipeline.photon_collection.enc.arguments.v", values=["_", "_"]),
+                      ParameterValues(key=ka, values="_")]
+            kw = dict(from_file=fn, column_range=(0, 3))
     else:
         params.append(ParameterValues(key=ka, values=[x + s for x in h["a"]]))
         if "b" in h:
@@ -347,12 +354,13 @@ def plan(tier):
                 ("noisy3", 2, 1), ("noisy2", 2, 2), ("mseed3", 2, 1), ("files3", 2, 1),
                 ("atomic4", 4, 0), ("atomicn3", 3, 0), ("atomicf3", 3, 0), ("det3", 1, 0), ("det3", 3, 1),
                 ("files2x3", 2, 0), ("files3x2", 3, 0), ("rtimes3", 2, 1), ("rtimes3n", 3, 1), ("collide", 2, 0),
-                ("collideS", 2, 0)]
+                ("collideS", 2, 0), ("customv", 2, 0)]
     return [("det3", 2, 2), ("det2x2", 2, 2), ("det3s2", 2, 2), ("state3", 2, 2), ("seq", 2, 2), ("custom3", 2, 2),
             ("noisy3", 2, 2), ("noisy2", 2, 3), ("mseed3", 2, 2), ("files3", 2, 2), ("det3", 3, 2), ("noisy3", 3, 2),
             ("atomic4", 4, 0), ("atomic4", 2, 0), ("atomicn3", 3, 0), ("atomicf3", 3, 0), ("det3", 1, 0),
             ("noisy3", 1, 0), ("files2x3", 2, 0), ("files3x2", 3, 0), ("files2x3", 6, 0), ("rtimes3", 2, 2),
-            ("rtimes3n", 3, 2), ("collide", 2, 0), ("collide", 3, 0), ("collideS", 2, 0)]
+            ("rtimes3n", 3, 2), ("collide", 2, 0), ("collide", 3, 0), ("collideS", 2, 0), ("customv", 2, 0),
+            ("customv", 3, 0)]
 
 
 def shards(tier, seed):
@@ -653,9 +661,9 @@ def run_calib(shard):
     outcomes = set()
     ref = run_calibration("synchronous", None, islands=2)
     configs = [("threads", 1, None), ("threads", 2, None), ("threads", 4, None), ("synchronous", None, [1, 0]),
-               ("threads", 2, [1, 0])]
+               ("threads", 2, [1, 0]), ("processes", 2, None)]     # processes: evolved algorithm objects travel by pickle
     if shard.get("tier") == "thorough":
-        configs += [("threads", 16, None)]
+        configs += [("threads", 16, None), ("processes", 4, None)]
     for sch, nw, order in configs:
         n += 1
         try:
